@@ -5,6 +5,7 @@ STREAMS = {
     'ring': dict(pkg='./cmd/ring'),
     'processor': dict(pkg='./cmd/processor'),
     'throttle': dict(pkg='./cmd/throttle'),
+    'window': dict(pkg='./cmd/window'),
     'detector': dict(pkg='./cmd/detector', overlay={'motion/zz_verif_motion.go': 'motion/zz_verif_motion.go'}),
     'fs': dict(daemon='./cmd/thermal-recorder', strace=True,
                overlay={'cmd/thermal-recorder/zz_verif_main.go': 'thermal-recorder/zz_verif_main.go',
@@ -38,7 +39,7 @@ PROPS = {
         assumptions=['capacity >= 1 (NewFrameLoop(0) divides by zero on the first Move; the daemon sizes it preview*fps+trigger-frames)'],
     ),
     'C20': dict(
-        lean=['Props.C20'],
+        lean=['Props.C20', 'Props.FactsProc'],
         streams=['loglimiter'],
         rule='histories of (time, message) arrivals over 1-3 messages with steps in {0,1,iv-1,iv,iv+1,iv/2,2iv,iv/3} '
              '(thorough: plus every history of length <= 6 over 3 messages x 4 time steps); non-trivial = at least one '
@@ -47,7 +48,7 @@ PROPS = {
         assumptions=['non-decreasing clock', 'the zero time.Time of a fresh limiter is further than any interval before the first arrival'],
     ),
     'C05': dict(
-        lean=['Props.C05'],
+        lean=['Props.C05', 'Props.FactsWiring'],
         streams=['throttle'],
         rule='request/clock schedules in five phase styles (burst at one instant, camera-rate, churn at the tick boundary +-1 ns, long idles, '
              'one-clip refills) with scripted base-recorder failures in 35% of cases; the window monitor checks all O(n^2) windows of each case; '
@@ -57,43 +58,43 @@ PROPS = {
         assumptions=['non-decreasing clock', 'bucket-size*fps >= 1 and (min+preview)*fps >= 1 (the library panics on capacity 0; rate 0 is undefined)'],
     ),
     'C01': dict(
-        lean=['Props.C01'],
+        lean=['Props.C01', 'Props.FactsProc'],
         streams=['processor'],
         project={'processor': r'^< (md|m\.|re|rs|ret|panic)'}, rule=PROC_RULE, trusted=PROC_TRUSTED,
         assumptions=PROC_ASSUME['C01'],
     ),
     'C02': dict(
-        lean=['Props.C02'],
+        lean=['Props.C02', 'Props.FactsProc'],
         streams=['processor'],
         project={'processor': r'^< (md|m\.|re|rs|ret|panic)'}, rule=PROC_RULE, trusted=PROC_TRUSTED,
         assumptions=PROC_ASSUME['C02'],
     ),
     'C03': dict(
-        lean=['Props.C03'],
+        lean=['Props.C03', 'Props.FactsProc'],
         streams=['processor'],
         project={'processor': r'^< (md|m\.|re|rs|ret|panic)'}, rule=PROC_RULE, trusted=PROC_TRUSTED,
         assumptions=PROC_ASSUME['C03'],
     ),
     'C04': dict(
-        lean=['Props.C04'],
-        streams=['processor'],
-        project={'processor': r'^< (md|m\.|re|rs|ret|panic)'}, rule=PROC_RULE, trusted=PROC_TRUSTED,
+        lean=['Props.C04', 'Props.C04Window', 'Props.FactsProc'],
+        streams=['processor', 'window', 'fs'],
+        project={'processor': r'^< (md|m\.|re|rs|ret|panic)', 'fs': r'^< gate'}, rule=PROC_RULE, trusted=PROC_TRUSTED,
         assumptions=PROC_ASSUME['C04'],
     ),
     'C12': dict(
-        lean=['Props.C12'],
+        lean=['Props.C12', 'Props.FactsProc'],
         streams=['processor'],
         rule=PROC_RULE, trusted=PROC_TRUSTED,
         assumptions=PROC_ASSUME['C12'],
     ),
     'C13': dict(
-        lean=['Props.C13'],
+        lean=['Props.C13', 'Props.C13Parse', 'Props.FactsProc'],
         streams=['processor'],
         rule=PROC_RULE, trusted=PROC_TRUSTED,
         assumptions=PROC_ASSUME['C13'],
     ),
     'C17': dict(
-        lean=['Props.C17'],
+        lean=['Props.C17', 'Props.FactsProc'],
         streams=['processor'],
         project={'processor': r'^< (c\.|t\.|ret|panic)'}, rule=PROC_RULE, trusted=PROC_TRUSTED,
         assumptions=PROC_ASSUME['C17'],
